@@ -27,6 +27,9 @@ def decode_kwargs(kw):
             out[k] = {_elem(e): f for e, f in v}
         elif k == "path_length_ranges":
             out[k] = [tuple(r) for r in v]
+        elif k in ("additional_starts", "additional_ends") and isinstance(v, dict) and "as" in v:
+            # the same node collection in another container type: {"as": "tuple" | "set", "items": [...]}
+            out[k] = {"tuple": tuple, "set": set, "list": list}[v["as"]](v["items"])
         elif k == "optimization_options":
             out[k] = copy.deepcopy(v)
         else:
